@@ -81,6 +81,18 @@ def make_base(name):
             v = np.array(TRTET, float) * 0.37 @ _rot((2, -1, 5, 3)).T + np.array([-4.0, 0.5, 2.0])
         elif tag == "tri":
             v = np.array(CUBECUT, float) + np.array([3.0, -1.0, 0.5])
+        elif tag == "scrambled":
+            # faces given in non-cyclic vertex order and with mixed winding: the state sort_faces is for
+            v = np.array(CUBECUT, float) + np.array([3.0, -1.0, 0.5])
+            fs = []
+            for i, f in enumerate(_hull_faces(v)):
+                f = [int(x) for x in f]
+                if i % 2:
+                    f = f[::-1]
+                if len(f) > 3 and i % 3 == 0:
+                    f[1], f[2] = f[2], f[1]
+                fs.append(np.array(f))
+            return S.Polyhedron(v, fs, faces_are_convex=True)
         elif tag == "lsolid":
             v, faces = _lsolid()
             v = v @ R.T * 1.5 + off
@@ -158,6 +170,7 @@ BASES = [
     "ConvexSpheropolygon/xy",
     "ConvexPolygon/down",
     "ConvexSpheropolygon/down",
+    "Polyhedron/scrambled",
     "ConvexPolyhedron/simplex",
     "Polyhedron/simplex",
     "ConvexPolygon/simplex",
